@@ -22,6 +22,7 @@ type SolveResult struct {
 	Model   map[string]*T
 	Raw     string
 	Agree   []string // thorough: solvers that answered unsat
+	Retried bool     // answered only in the second, longer pass
 }
 
 var solverCmds = map[string][]string{
@@ -106,7 +107,11 @@ func cleanupScratch() {
 }
 
 func runSolver(name, file string, timeout time.Duration) SolveResult {
-	ctx, cancel := context.WithTimeout(context.Background(), timeout+2*time.Second)
+	return runSolverCtx(context.Background(), name, file, timeout)
+}
+
+func runSolverCtx(parent context.Context, name, file string, timeout time.Duration) SolveResult {
+	ctx, cancel := context.WithTimeout(parent, timeout+2*time.Second)
 	defer cancel()
 	args := append([]string{}, solverCmds[name][1:]...)
 	switch name {
@@ -173,14 +178,35 @@ func solve(text string, thorough bool, timeout time.Duration) SolveResult {
 		}
 		return best
 	}
+	// All three run; once two have given the same decisive answer the third gets a
+	// grace period (5 s or four times the slower of the two) and is then cut off —
+	// it counts as a timeout, and Agree lists the solvers that did answer.
 	ch := make(chan SolveResult, 3)
+	ctx, cancelAll := context.WithCancel(context.Background())
+	defer cancelAll()
 	for _, n := range []string{"z3-new", "cvc5", "z3"} {
 		n := n
-		go func() { ch <- runSolver(n, f, timeout) }()
+		go func() { ch <- runSolverCtx(ctx, n, f, timeout) }()
 	}
 	var all []SolveResult
-	for i := 0; i < 3; i++ {
-		all = append(all, <-ch)
+	var grace <-chan time.Time
+	for len(all) < 3 {
+		select {
+		case r := <-ch:
+			all = append(all, r)
+			if grace == nil && len(all) == 2 && all[0].Status == all[1].Status && (r.Status == "unsat" || r.Status == "sat") {
+				g := 5 * time.Second
+				for _, a := range all {
+					if d := time.Duration(4 * a.Seconds * float64(time.Second)); d > g {
+						g = d
+					}
+				}
+				grace = time.After(g)
+			}
+		case <-grace:
+			cancelAll()
+			grace = nil
+		}
 	}
 	var res SolveResult
 	nUnsat, nSat := 0, 0
